@@ -32,6 +32,10 @@ type conn struct {
 	reader   *bufio.Reader
 	writer   *bufio.Writer
 	writerMu sync.Mutex // shared lock across all ResponseWriter's to prevent write data races
+
+	// disablePanicRecovery mirrors the server's option for the goroutines that
+	// serve this connection's requests
+	disablePanicRecovery bool
 }
 
 // newConn will create a new Conn from an accepted net.Conn which will be used
@@ -137,6 +141,15 @@ func (c *conn) serveRequests() error {
 					c.logger.Debug("requestsWg done", "op", op, "conn", c.connID, "requestID", w.requestID)
 					c.requestsWg.Done()
 				}()
+				if !c.disablePanicRecovery {
+					// a panicking handler must not take the server down: it runs on
+					// its own goroutine, which the connection's recover does not cover
+					defer func() {
+						if rec := recover(); rec != nil {
+							c.logger.Error("Caught panic while serving request", "op", op, "conn", c.connID, "requestID", w.requestID, "panic", fmt.Sprintf("%+v", rec))
+						}
+					}()
+				}
 				c.router.serve(w, r)
 			}()
 		}
